@@ -32,6 +32,7 @@ RULE += ' Round 8: sample axes of 2**53 .. 2**62 (interval arithmetic only); wit
 RULE += ' Round 9: compressed files whose chunks have unequal lengths.'
 RULE += ' Round 10: part files without a complete row (zero samples: in the middle, at the end, twice in a row); n_channels_dat together with another n_channels; arrays of shape (n, 0).'
 RULE += ' Round 11: get_excerpts on 2-D and 3-D data (the same rows as for 1-D data).'
+RULE += ' Round 12: the synthetic RandomEphysReader at and around whole numbers of chunks.'
 EXHAUSTIVE = {'quick': True, 'thorough': True}
 EXHAUSTIVE_SCOPE = {'quick': 'n <= 25 (see rule)', 'thorough': 'n <= 40 (see rule)'}
 FLOORS = {'quick': {'evaluations': 20000, 'distinct_nontrivial': 2000,
